@@ -23,7 +23,7 @@ def run_extract(ctx):
         exe = os.path.join(C.BIN, "extract")
         if os.path.exists(exe):
             os.remove(exe)
-        rc, o = C.sh(["go", "build", "-o", exe, "./cmd/extract"], cwd=os.path.join(C.VERIF, "harness"),
+        rc, o = C.sh(["go", "build"] + C.go_mod_args() + ["-o", exe, "./cmd/extract"], cwd=os.path.join(C.VERIF, "harness"),
                      env=C.GOENV, timeout=600)
         ctx.log.append({"step": "go build extract", "rc": rc, "out": o[-1500:]})
         if rc != 0:
